@@ -1,39 +1,1603 @@
 //go:build verif
 
+// C17 harness: peering imports mirror exactly what was exported and touch nothing else.
+//
+// Import side. A real peerstream.Server (processResponse -> handleUpsert -> handleUpdateService /
+// handleUpsertExportedServiceList) is wired to a Backend that applies CatalogRegister /
+// CatalogDeregister as Raft commands to a real FSM + state store. Every case builds a prior
+// catalog (local data, other peers' data, earlier imports) and then feeds a sequence of
+// exported-service upserts, "deletes" (empty upserts) and exported-service-list updates, mostly
+// snapshots of a small simulated exporting cluster that mutates between messages (instances move
+// between nodes, nodes are shared by services, node- and service-level checks come and go, nodes
+// are renamed / re-identified, names collide with local and other-peer rows, optionally names
+// that differ only in case). After every message the whole catalog is dumped; the Lean model
+// (CV.Peer, driver cvd_c17) must reproduce result, command log, dump and CheckServiceNodes view.
+//
+// Export side. Store.ExportedServicesForPeer over generated exported-services entries (exact,
+// wildcard, several peers, the "consul" name), local registrations and discovery chains.
+//
+// Monitors (independent of the model) restate the property on the implementation: see mon*.
 package main
 
 import (
 	"fmt"
+	"sort"
+	"strings"
 
 	"github.com/hashicorp/go-hclog"
 	"github.com/hashicorp/raft"
+	"google.golang.org/protobuf/proto"
+	"google.golang.org/protobuf/types/known/anypb"
 
+	"github.com/hashicorp/consul/agent/connect"
 	"github.com/hashicorp/consul/agent/consul/fsm"
 	"github.com/hashicorp/consul/agent/consul/state"
+	"github.com/hashicorp/consul/agent/consul/stream"
 	"github.com/hashicorp/consul/agent/grpc-external/services/peerstream"
 	"github.com/hashicorp/consul/agent/structs"
 	"github.com/hashicorp/consul/internal/verifharness/hx"
+	"github.com/hashicorp/consul/proto/private/pbpeering"
 	"github.com/hashicorp/consul/proto/private/pbpeerstream"
 	"github.com/hashicorp/consul/proto/private/pbservice"
+	"github.com/hashicorp/consul/types"
 )
 
-var _ = raft.Log{}
-var _ = pbservice.CheckServiceNode{}
-var _ = pbpeerstream.ExportedService{}
-var _ = structs.RegisterRequest{}
-var _ = peerstream.Config{}
+// ---------------------------------------------------------------- plain data mirrored by the model
 
-func newFSM() *fsm.FSM {
-	return fsm.NewFromDeps(fsm.Deps{
+type nodeDef struct{ name, id, addr string }
+type svcDef struct {
+	sid, name string
+	port      int
+}
+type chkDef struct{ node, cid, sid, sname, status string }
+type inst struct {
+	node nodeDef
+	svc  svcDef
+	chks []chkDef
+}
+
+func encChkDef(k chkDef) string {
+	return strings.Join([]string{hx.EncS(k.node), hx.EncS(k.cid), hx.EncS(k.sid), hx.EncS(k.sname), hx.EncS(k.status)}, "~")
+}
+func encChkDefs(ks []chkDef) string {
+	if len(ks) == 0 {
+		return "-"
+	}
+	t := make([]string, len(ks))
+	for i, k := range ks {
+		t[i] = encChkDef(k)
+	}
+	return strings.Join(t, "|")
+}
+func encInst(i inst) string {
+	return strings.Join([]string{hx.EncS(i.node.name), hx.EncS(i.node.id), hx.EncS(i.node.addr),
+		hx.EncS(i.svc.sid), hx.EncS(i.svc.name), fmt.Sprint(i.svc.port), encChkDefs(i.chks)}, ";")
+}
+func encInsts(is []inst) string {
+	t := make([]string, len(is))
+	for i, x := range is {
+		t[i] = encInst(x)
+	}
+	return hx.EncList(t)
+}
+
+// ---------------------------------------------------------------- the importing cluster
+
+type call struct {
+	enc  string // canonical log entry
+	node string // node name of a registration ("" for deregistrations)
+	peer string
+}
+
+type backend struct {
+	w     *world
+	calls []call
+}
+
+func (b *backend) Subscribe(*stream.SubscribeRequest) (*stream.Subscription, error) {
+	return nil, fmt.Errorf("not used")
+}
+func (b *backend) IsLeader() bool                                    { return true }
+func (b *backend) SetLeaderAddress(string)                           {}
+func (b *backend) GetLeaderAddress() string                          { return "" }
+func (b *backend) ValidateProposedPeeringSecret(string) (bool, error) { return true, nil }
+func (b *backend) PeeringSecretsWrite(*pbpeering.SecretsWriteRequest) error {
+	return nil
+}
+func (b *backend) PeeringTerminateByID(*pbpeering.PeeringTerminateByIDRequest) error { return nil }
+func (b *backend) PeeringTrustBundleWrite(*pbpeering.PeeringTrustBundleWriteRequest) error {
+	return nil
+}
+func (b *backend) PeeringWrite(*pbpeering.PeeringWriteRequest) error { return nil }
+
+func (b *backend) CatalogRegister(req *structs.RegisterRequest) error {
+	s := "-"
+	if req.Service != nil {
+		s = hx.EncS(req.Service.ID)
+	}
+	ks := "-"
+	if len(req.Checks) > 0 {
+		t := make([]string, len(req.Checks))
+		for i, c := range req.Checks {
+			t[i] = hx.EncS(string(c.CheckID))
+		}
+		sort.Strings(t)
+		ks = strings.Join(t, "+")
+	}
+	b.calls = append(b.calls, call{enc: fmt.Sprintf("r;%s;%s;%s", hx.EncS(req.Node), s, ks), node: req.Node, peer: req.PeerName})
+	return b.w.apply(structs.RegisterRequestType, req)
+}
+
+func (b *backend) CatalogDeregister(req *structs.DeregisterRequest) error {
+	var e string
+	switch {
+	case req.ServiceID != "":
+		e = fmt.Sprintf("ds;%s;%s", hx.EncS(req.Node), hx.EncS(req.ServiceID))
+	case req.CheckID != "":
+		e = fmt.Sprintf("dc;%s;%s", hx.EncS(req.Node), hx.EncS(string(req.CheckID)))
+	default:
+		e = fmt.Sprintf("dn;%s", hx.EncS(req.Node))
+	}
+	b.calls = append(b.calls, call{enc: e, peer: req.PeerName})
+	return b.w.apply(structs.DeregisterRequestType, req)
+}
+
+type world struct {
+	f   *fsm.FSM
+	srv *peerstream.Server
+	be  *backend
+	mst *peerstream.MutableStatus
+	idx uint64
+}
+
+func newWorld() *world {
+	w := &world{idx: 10}
+	w.f = fsm.NewFromDeps(fsm.Deps{
 		Logger:         hclog.NewNullLogger(),
 		NewStateStore:  func() *state.Store { return state.NewStateStore(nil) },
 		StorageBackend: fsm.NullStorageBackend,
 	})
+	w.be = &backend{w: w}
+	w.srv = peerstream.NewServer(peerstream.Config{
+		Backend:    w.be,
+		GetStore:   func() peerstream.StateStore { return w.f.State() },
+		Logger:     hclog.NewNullLogger(),
+		Datacenter: "dc1",
+	})
+	w.mst = peerstream.VerifC17NewStatus()
+	return w
+}
+
+// apply sends one Raft command through the real FSM, as the leader's raftApplyMsgpack does.
+func (w *world) apply(t structs.MessageType, req any) error {
+	buf, err := structs.Encode(t, req)
+	if err != nil {
+		panic(err)
+	}
+	w.idx++
+	res := w.f.Apply(&raft.Log{Index: w.idx, Term: 1, Type: raft.LogCommand, Data: buf})
+	if e, ok := res.(error); ok && e != nil {
+		return e
+	}
+	return nil
+}
+
+func errEnum(err error) string {
+	if err == nil {
+		return "ok"
+	}
+	m := err.Error()
+	switch {
+	case strings.Contains(m, "Missing service registration"):
+		return "err:missing-service"
+	case strings.Contains(m, "Missing node registration"):
+		return "err:missing-node"
+	case strings.Contains(m, "is reserved by node"):
+		return "err:node-reserved"
+	case strings.Contains(m, "does not match node"):
+		return "err:check-node-mismatch"
+	case strings.Contains(m, "unsupported operation"):
+		return "err:unsupported-operation"
+	case strings.Contains(m, "unknown resource type"):
+		return "err:unknown-type"
+	case strings.Contains(m, "without a nonce"):
+		return "err:no-nonce"
+	case strings.Contains(m, "no content"):
+		return "err:no-content"
+	case strings.Contains(m, "mismatched resourceURL"):
+		return "err:mismatched-url"
+	}
+	return "err:other(" + strings.ReplaceAll(m, " ", "_") + ")"
+}
+
+// ---------------------------------------------------------------- canonical views of the real store
+
+type row struct{ key, full string } // key: model-visible fields; full: + Raft indexes
+
+func (w *world) rows() (out []row, byPeer map[string][]string) {
+	ns, ss, ks := w.f.State().VerifC17Catalog()
+	byPeer = map[string][]string{}
+	for _, n := range ns {
+		k := fmt.Sprintf("N %s;%s;%s;%s", hx.EncS(n.PeerName), hx.EncS(n.Node), hx.EncS(string(n.ID)), hx.EncS(n.Address))
+		f := fmt.Sprintf("%s @%d/%d dc=%s meta=%v ta=%v", k, n.CreateIndex, n.ModifyIndex, n.Datacenter, n.Meta, n.TaggedAddresses)
+		out = append(out, row{k, f})
+		byPeer[n.PeerName] = append(byPeer[n.PeerName], f)
+	}
+	for _, s := range ss {
+		k := fmt.Sprintf("S %s;%s;%s;%s;%d", hx.EncS(s.PeerName), hx.EncS(s.Node), hx.EncS(s.ServiceID), hx.EncS(s.ServiceName), s.ServicePort)
+		f := fmt.Sprintf("%s @%d/%d kind=%s tags=%v meta=%v w=%v", k, s.CreateIndex, s.ModifyIndex, s.ServiceKind, s.ServiceTags, s.ServiceMeta, s.ServiceWeights)
+		out = append(out, row{k, f})
+		byPeer[s.PeerName] = append(byPeer[s.PeerName], f)
+	}
+	for _, c := range ks {
+		k := fmt.Sprintf("C %s;%s;%s;%s;%s;%s", hx.EncS(c.PeerName), hx.EncS(c.Node), hx.EncS(string(c.CheckID)), hx.EncS(c.ServiceID), hx.EncS(c.ServiceName), hx.EncS(c.Status))
+		f := fmt.Sprintf("%s @%d/%d name=%s out=%s", k, c.CreateIndex, c.ModifyIndex, c.Name, c.Output)
+		out = append(out, row{k, f})
+		byPeer[c.PeerName] = append(byPeer[c.PeerName], f)
+	}
+	return
+}
+
+func (w *world) dump() string {
+	rs, _ := w.rows()
+	var n, s, c []string
+	for _, r := range rs {
+		switch r.key[0] {
+		case 'N':
+			n = append(n, r.key[2:])
+		case 'S':
+			s = append(s, r.key[2:])
+		default:
+			c = append(c, r.key[2:])
+		}
+	}
+	sort.Strings(n)
+	sort.Strings(s)
+	sort.Strings(c)
+	return fmt.Sprintf("N=%s S=%s C=%s", hx.EncList(n), hx.EncList(s), hx.EncList(c))
+}
+
+// everything that does not belong to peer p, with Raft indexes
+func (w *world) others(p string) string {
+	_, by := w.rows()
+	var all []string
+	for peer, rs := range by {
+		if peer != p {
+			all = append(all, rs...)
+		}
+	}
+	sort.Strings(all)
+	return strings.Join(all, "\n")
+}
+
+type csnView struct {
+	node  nodeDef
+	svc   svcDef
+	chks  []chkDef
+	canon string
+}
+
+func (w *world) csn(p, name string) ([]csnView, string) {
+	_, res, err := w.f.State().CheckServiceNodes(nil, name, structs.DefaultEnterpriseMetaInDefaultPartition(), p)
+	if err != nil {
+		return nil, errEnum(err)
+	}
+	var out []csnView
+	var enc []string
+	for _, x := range res {
+		v := csnView{node: nodeDef{x.Node.Node, string(x.Node.ID), x.Node.Address}, svc: svcDef{x.Service.ID, x.Service.Service, x.Service.Port}}
+		var ks []string
+		for _, c := range x.Checks {
+			k := chkDef{c.Node, string(c.CheckID), c.ServiceID, c.ServiceName, c.Status}
+			v.chks = append(v.chks, k)
+			ks = append(ks, strings.Join([]string{hx.EncS(k.cid), hx.EncS(k.sid), hx.EncS(k.sname), hx.EncS(k.status), hx.EncS(k.node)}, "~"))
+		}
+		sort.Strings(ks)
+		kk := "-"
+		if len(ks) > 0 {
+			kk = strings.Join(ks, "|")
+		}
+		v.canon = strings.Join([]string{hx.EncS(v.node.name), hx.EncS(v.node.id), hx.EncS(v.node.addr), hx.EncS(v.svc.sid), hx.EncS(v.svc.name), fmt.Sprint(v.svc.port), kk}, ";")
+		out = append(out, v)
+		enc = append(enc, v.canon)
+	}
+	sort.Strings(enc)
+	return out, hx.EncList(enc)
+}
+
+// ---------------------------------------------------------------- building real requests
+
+func mkNodeService(s svcDef, peer string) *structs.NodeService {
+	return &structs.NodeService{
+		Kind: structs.ServiceKindTypical, ID: s.sid, Service: s.name, Port: s.port,
+		Weights:        &structs.Weights{Passing: 1, Warning: 1},
+		EnterpriseMeta: *structs.DefaultEnterpriseMetaInDefaultPartition(),
+		PeerName:       peer,
+	}
+}
+
+func mkCheck(k chkDef, peer string) *structs.HealthCheck {
+	return &structs.HealthCheck{
+		Node: k.node, CheckID: types.CheckID(k.cid), Name: "chk-" + k.cid, Status: k.status,
+		ServiceID: k.sid, ServiceName: k.sname,
+		EnterpriseMeta: *structs.DefaultEnterpriseMetaInDefaultPartition(),
+		PeerName:       peer,
+	}
+}
+
+func (w *world) directRegister(peer string, n nodeDef, s *svcDef, ks []chkDef) error {
+	req := &structs.RegisterRequest{
+		Datacenter: "dc1", ID: types.NodeID(n.id), Node: n.name, Address: n.addr, PeerName: peer,
+		EnterpriseMeta: *structs.DefaultEnterpriseMetaInDefaultPartition(),
+	}
+	if s != nil {
+		req.Service = mkNodeService(*s, peer)
+	}
+	for _, k := range ks {
+		req.Checks = append(req.Checks, mkCheck(k, peer))
+	}
+	return w.apply(structs.RegisterRequestType, req)
+}
+
+func mkExportedService(is []inst) *pbpeerstream.ExportedService {
+	out := &pbpeerstream.ExportedService{}
+	for _, i := range is {
+		// what the exporter sends: its own (local) rows, datacenter of the exporter, no Raft indexes
+		c := &structs.CheckServiceNode{
+			Node: &structs.Node{ID: types.NodeID(i.node.id), Node: i.node.name, Address: i.node.addr, Datacenter: "dc-exp"},
+			Service: mkNodeService(i.svc, ""),
+		}
+		for _, k := range i.chks {
+			c.Checks = append(c.Checks, mkCheck(k, ""))
+		}
+		out.Nodes = append(out.Nodes, pbservice.NewCheckServiceNodeFromStructs(c))
+	}
+	return out
+}
+
+type result struct {
+	status string // ok | err:* | panic
+	calls  []call
+}
+
+func (w *world) process(peer string, resp *pbpeerstream.ReplicationMessage_Response) (res result) {
+	w.be.calls = nil
+	defer func() {
+		res.calls = w.be.calls
+		if r := recover(); r != nil {
+			res.status = "panic"
+		}
+	}()
+	reply, err := w.srv.VerifC17ProcessResponse(peer, "", w.mst, resp)
+	res.status = errEnum(err)
+	if err == nil && reply.GetRequest().GetError() != nil {
+		res.status = "err:nack-without-error"
+	}
+	return
+}
+
+func (w *world) sendService(peer, name string, is []inst) result {
+	a, err := anypb.New(mkExportedService(is))
+	if err != nil {
+		panic(err)
+	}
+	return w.process(peer, &pbpeerstream.ReplicationMessage_Response{
+		ResourceURL: pbpeerstream.TypeURLExportedService, ResourceID: name, Nonce: "n",
+		Operation: pbpeerstream.Operation_OPERATION_UPSERT, Resource: a,
+	})
+}
+
+func (w *world) sendList(peer string, names []string) result {
+	a, err := anypb.New(&pbpeerstream.ExportedServiceList{Services: names})
+	if err != nil {
+		panic(err)
+	}
+	return w.process(peer, &pbpeerstream.ReplicationMessage_Response{
+		ResourceURL: pbpeerstream.TypeURLExportedServiceList, ResourceID: "exported-service-list", Nonce: "n",
+		Operation: pbpeerstream.Operation_OPERATION_UPSERT, Resource: a,
+	})
+}
+
+func encLog(cs []call) string {
+	t := make([]string, len(cs))
+	for i, c := range cs {
+		t[i] = c.enc
+	}
+	sort.Strings(t)
+	return hx.EncList(t)
+}
+
+func resLine(r result) string {
+	if r.status == "panic" {
+		return "panic"
+	}
+	return fmt.Sprintf("%s log=%s", r.status, encLog(r.calls))
+}
+
+// orderByCalls reorders the instances so that nodes appear in the order the implementation
+// registered them (Go map iteration order); nodes that produced no registration go last.
+func orderByCalls(is []inst, cs []call) []inst {
+	rank := map[string]int{}
+	for _, c := range cs {
+		if c.node != "" {
+			if _, ok := rank[c.node]; !ok {
+				rank[c.node] = len(rank)
+			}
+		}
+	}
+	out := append([]inst(nil), is...)
+	r := func(i inst) int {
+		if v, ok := rank[i.node.name]; ok {
+			return v
+		}
+		return 1 << 30
+	}
+	sort.SliceStable(out, func(a, b int) bool { return r(out[a]) < r(out[b]) })
+	return out
+}
+
+// ---------------------------------------------------------------- name universes
+
+var (
+	uuids = []string{"", "11111111-1111-1111-1111-111111111111", "22222222-2222-2222-2222-222222222222",
+		"33333333-3333-3333-3333-333333333333", "aaaaaaaa-aaaa-aaaa-aaaa-aaaaaaaaaaaa"}
+	addrs    = []string{"10.0.0.1", "10.0.0.2", "10.0.0.3"}
+	ports    = []int{80, 8080, 443}
+	statuses = []string{"passing", "warning", "critical"}
+)
+
+type universe struct {
+	nodes, svcs, sids, ncids, scids []string
+}
+
+func mkUniverse(caseMode bool) universe {
+	u := universe{
+		nodes: []string{"n1", "n2", "n3", "web"},
+		svcs:  []string{"web", "api", "db", "web-sidecar-proxy"},
+		sids:  []string{"web1", "web2", "api1", "s1"},
+		ncids: []string{"serfHealth", "nc1", "nc2"},
+		scids: []string{"c1", "c2", "web1"},
+	}
+	if caseMode {
+		u.nodes = append(u.nodes, "N1", "Web")
+		u.svcs = append(u.svcs, "Web")
+		u.sids = append(u.sids, "S1", "WEB1")
+		u.ncids = append(u.ncids, "NC1")
+		u.scids = append(u.scids, "C1")
+	}
+	return u
+}
+
+// ---------------------------------------------------------------- the simulated exporting cluster
+
+type xNode struct {
+	name, id, addr string
+	checks         map[string]string // node check id -> status
+}
+type xInst struct {
+	node, sid, sname string
+	port             int
+	checks           map[string]string // service check id -> status
+}
+type exporter struct {
+	u     universe
+	ids   bool
+	nodes []*xNode
+	insts []*xInst
+}
+
+func lc(s string) string { return strings.ToLower(s) }
+
+func (x *exporter) node(name string) *xNode {
+	for _, n := range x.nodes {
+		if lc(n.name) == lc(name) {
+			return n
+		}
+	}
+	return nil
+}
+func (x *exporter) inst(node, sid string) *xInst {
+	for _, i := range x.insts {
+		if lc(i.node) == lc(node) && lc(i.sid) == lc(sid) {
+			return i
+		}
+	}
+	return nil
+}
+func (x *exporter) idUsed(id string) bool {
+	for _, n := range x.nodes {
+		if n.id == id {
+			return true
+		}
+	}
+	return false
+}
+func (x *exporter) freshID(r *hx.RNG) string {
+	if !x.ids || r.Chance(25) {
+		return ""
+	}
+	for k := 0; k < 8; k++ {
+		id := hx.Pick(r, uuids[1:])
+		if !x.idUsed(id) {
+			return id
+		}
+	}
+	return ""
+}
+
+// check ids are unique per node across node checks and service checks (memdb key)
+func (x *exporter) cidUsed(node, cid string) bool {
+	if n := x.node(node); n != nil {
+		for c := range n.checks {
+			if lc(c) == lc(cid) {
+				return true
+			}
+		}
+	}
+	for _, i := range x.insts {
+		if lc(i.node) == lc(node) {
+			for c := range i.checks {
+				if lc(c) == lc(cid) {
+					return true
+				}
+			}
+		}
+	}
+	return false
+}
+
+func (x *exporter) ensureNode(r *hx.RNG, name string) *xNode {
+	if n := x.node(name); n != nil {
+		return n
+	}
+	n := &xNode{name: name, id: x.freshID(r), addr: hx.Pick(r, addrs), checks: map[string]string{}}
+	if r.Chance(60) {
+		n.checks["serfHealth"] = hx.Pick(r, statuses)
+	}
+	if r.Chance(30) {
+		n.checks[hx.Pick(r, x.u.ncids)] = hx.Pick(r, statuses)
+		// keep ids unique up to case
+		seen := map[string]bool{}
+		for c := range n.checks {
+			if seen[lc(c)] {
+				delete(n.checks, c)
+			}
+			seen[lc(c)] = true
+		}
+	}
+	x.nodes = append(x.nodes, n)
+	return n
+}
+
+func (x *exporter) addInst(r *hx.RNG, sname string) string {
+	node := hx.Pick(r, x.u.nodes)
+	sid := hx.Pick(r, x.u.sids)
+	if x.inst(node, sid) != nil {
+		return ""
+	}
+	n := x.ensureNode(r, node)
+	i := &xInst{node: n.name, sid: sid, sname: sname, port: hx.Pick(r, ports), checks: map[string]string{}}
+	x.insts = append(x.insts, i)
+	for k := r.Intn(3); k > 0; k-- {
+		cid := hx.Pick(r, x.u.scids)
+		if r.Chance(40) {
+			cid = "service:" + sid
+		}
+		if !x.cidUsed(n.name, cid) {
+			i.checks[cid] = hx.Pick(r, statuses)
+		}
+	}
+	return "add-instance"
+}
+
+func (x *exporter) removeInstAt(k int) {
+	x.insts = append(x.insts[:k:k], x.insts[k+1:]...)
+}
+
+func (x *exporter) gcNodes() {
+	// the exporter keeps nodes without services too; nothing to do
+}
+
+func (x *exporter) mutate(r *hx.RNG) string {
+	switch r.Intn(16) {
+	case 0, 1, 2:
+		return x.addInst(r, hx.Pick(r, x.u.svcs))
+	case 3:
+		if len(x.insts) > 0 {
+			x.removeInstAt(r.Intn(len(x.insts)))
+			return "remove-instance"
+		}
+	case 4:
+		if len(x.insts) > 0 { // the instance moves to another node
+			i := x.insts[r.Intn(len(x.insts))]
+			to := hx.Pick(r, x.u.nodes)
+			if lc(to) != lc(i.node) && x.inst(to, i.sid) == nil {
+				n := x.ensureNode(r, to)
+				for c := range i.checks {
+					if x.cidUsed(n.name, c) {
+						delete(i.checks, c)
+					}
+				}
+				i.node = n.name
+				return "move-instance"
+			}
+		}
+	case 5:
+		if len(x.insts) > 0 {
+			x.insts[r.Intn(len(x.insts))].port = hx.Pick(r, ports)
+			return "change-port"
+		}
+	case 6:
+		if len(x.nodes) > 0 {
+			n := x.nodes[r.Intn(len(x.nodes))]
+			cid := hx.Pick(r, x.u.ncids)
+			for c := range n.checks {
+				if lc(c) == lc(cid) {
+					delete(n.checks, c)
+					return "remove-node-check"
+				}
+			}
+			if !x.cidUsed(n.name, cid) {
+				n.checks[cid] = hx.Pick(r, statuses)
+				return "add-node-check"
+			}
+		}
+	case 7:
+		if len(x.nodes) > 0 {
+			n := x.nodes[r.Intn(len(x.nodes))]
+			for c := range n.checks {
+				n.checks[c] = hx.Pick(r, statuses)
+				return "node-check-status"
+			}
+		}
+	case 8:
+		if len(x.insts) > 0 {
+			i := x.insts[r.Intn(len(x.insts))]
+			cid := hx.Pick(r, x.u.scids)
+			for c := range i.checks {
+				if lc(c) == lc(cid) {
+					delete(i.checks, c)
+					return "remove-service-check"
+				}
+			}
+			if !x.cidUsed(i.node, cid) {
+				i.checks[cid] = hx.Pick(r, statuses)
+				return "add-service-check"
+			}
+		}
+	case 9:
+		if len(x.insts) > 0 {
+			i := x.insts[r.Intn(len(x.insts))]
+			for c := range i.checks {
+				i.checks[c] = hx.Pick(r, statuses)
+				return "service-check-status"
+			}
+		}
+	case 10:
+		if len(x.nodes) > 0 {
+			x.nodes[r.Intn(len(x.nodes))].addr = hx.Pick(r, addrs)
+			return "node-address"
+		}
+	case 11:
+		if len(x.nodes) > 0 { // rename: same id (if any), new name; instances follow
+			n := x.nodes[r.Intn(len(x.nodes))]
+			to := hx.Pick(r, x.u.nodes)
+			if e := x.node(to); e == nil || e == n {
+				if to != n.name {
+					old := n.name
+					n.name = to
+					for _, i := range x.insts {
+						if lc(i.node) == lc(old) {
+							i.node = to
+						}
+					}
+					if lc(old) == lc(to) {
+						return "rename-node-case"
+					}
+					return "rename-node"
+				}
+			}
+		}
+	case 12:
+		if len(x.nodes) > 0 && x.ids {
+			n := x.nodes[r.Intn(len(x.nodes))]
+			n.id = x.freshID(r)
+			return "node-id"
+		}
+	case 13:
+		if len(x.insts) > 0 { // the instance is replaced by one with another id on the same node
+			i := x.insts[r.Intn(len(x.insts))]
+			sid := hx.Pick(r, x.u.sids)
+			if x.inst(i.node, sid) == nil || lc(sid) == lc(i.sid) {
+				if sid != i.sid {
+					tag := "replace-instance-id"
+					if lc(sid) == lc(i.sid) {
+						tag = "replace-instance-id-case"
+					}
+					i.sid = sid
+					if n := x.node(i.node); n != nil && r.Chance(50) {
+						for c := range n.checks {
+							delete(n.checks, c)
+							tag += "+remove-node-check"
+							break
+						}
+					}
+					return tag
+				}
+			}
+		}
+	case 14:
+		if len(x.nodes) > 0 { // node leaves with everything on it
+			k := r.Intn(len(x.nodes))
+			n := x.nodes[k]
+			x.nodes = append(x.nodes[:k:k], x.nodes[k+1:]...)
+			var keep []*xInst
+			for _, i := range x.insts {
+				if lc(i.node) != lc(n.name) {
+					keep = append(keep, i)
+				}
+			}
+			x.insts = keep
+			return "remove-node"
+		}
+	case 15:
+		if len(x.insts) > 0 {
+			i := x.insts[r.Intn(len(x.insts))]
+			i.sname = hx.Pick(r, x.u.svcs)
+			return "instance-renamed-service"
+		}
+	}
+	return ""
+}
+
+func worst(a, b string) string {
+	rank := map[string]int{"passing": 0, "warning": 1, "critical": 2}
+	if rank[b] > rank[a] {
+		return b
+	}
+	return a
+}
+
+func sortedKeys(m map[string]string) []string {
+	ks := make([]string, 0, len(m))
+	for k := range m {
+		ks = append(ks, k)
+	}
+	sort.Strings(ks)
+	return ks
+}
+
+// snapshot is what CheckServiceNodes(name) returns on the exporter (exact, lower-cased name match),
+// optionally with the checks flattened as subscription_manager.go does today.
+func (x *exporter) snapshot(name string, flatten bool) []inst {
+	var out []inst
+	for _, i := range x.insts {
+		if lc(i.sname) != lc(name) {
+			continue
+		}
+		n := x.node(i.node)
+		it := inst{node: nodeDef{n.name, n.id, n.addr}, svc: svcDef{i.sid, i.sname, i.port}}
+		for _, c := range sortedKeys(n.checks) {
+			it.chks = append(it.chks, chkDef{n.name, c, "", "", n.checks[c]})
+		}
+		for _, c := range sortedKeys(i.checks) {
+			it.chks = append(it.chks, chkDef{n.name, c, i.sid, i.sname, i.checks[c]})
+		}
+		if flatten && len(it.chks) > 0 {
+			st := "passing"
+			for _, k := range it.chks {
+				st = worst(st, k.status)
+			}
+			it.chks = []chkDef{{n.name, i.sid + ":overall-check", i.sid, i.sname, st}}
+		}
+		out = append(out, it)
+	}
+	return out
+}
+
+func (x *exporter) names() []string {
+	seen := map[string]bool{}
+	var out []string
+	for _, i := range x.insts {
+		if !seen[i.sname] {
+			seen[i.sname] = true
+			out = append(out, i.sname)
+		}
+	}
+	sort.Strings(out)
+	return out
+}
+
+// ---------------------------------------------------------------- well-formedness of a snapshot (what one
+// consistent CheckServiceNodes result of an exporter always satisfies)
+
+func wellFormed(name string, is []inst) bool {
+	nodes := map[string]nodeDef{}
+	nodeChk := map[string]map[string]chkDef{}
+	ids := map[string]string{}
+	sids := map[string]bool{}
+	cids := map[string]string{} // lc(node)/lc(cid) -> owner sid
+	for _, i := range is {
+		ln := lc(i.node.name)
+		if i.node.name == "" || i.svc.sid == "" || lc(i.svc.name) != lc(name) {
+			return false
+		}
+		if n, ok := nodes[ln]; ok && n != i.node {
+			return false
+		}
+		nodes[ln] = i.node
+		if i.node.id != "" {
+			if o, ok := ids[i.node.id]; ok && o != ln {
+				return false
+			}
+			ids[i.node.id] = ln
+		}
+		if sids[ln+"/"+lc(i.svc.sid)] {
+			return false
+		}
+		sids[ln+"/"+lc(i.svc.sid)] = true
+		if nodeChk[ln] == nil {
+			nodeChk[ln] = map[string]chkDef{}
+		}
+		for _, k := range i.chks {
+			if k.cid == "" || k.node != i.node.name || k.status == "" {
+				return false
+			}
+			if k.sid != "" && (k.sid != i.svc.sid || k.sname != i.svc.name) {
+				return false
+			}
+			key := ln + "/" + lc(k.cid)
+			if o, ok := cids[key]; ok && o != k.sid {
+				return false
+			}
+			cids[key] = k.sid
+			if k.sid == "" {
+				if o, ok := nodeChk[ln][k.cid]; ok && o != k {
+					return false
+				}
+				nodeChk[ln][k.cid] = k
+			}
+		}
+	}
+	// node checks are attached to every instance of the node
+	for _, i := range is {
+		have := map[string]bool{}
+		for _, k := range i.chks {
+			if k.sid == "" {
+				have[k.cid] = true
+			}
+		}
+		if len(have) != len(nodeChk[lc(i.node.name)]) {
+			return false
+		}
+	}
+	return true
+}
+
+// ---------------------------------------------------------------- monitors (model independent)
+
+type monCtx struct {
+	run    *hx.Run
+	w      *world
+	replay []string
+}
+
+func (m *monCtx) violate(sig, desc string) {
+	ops := append([]string(nil), m.replay...)
+	m.run.Violate(sig, desc, ops)
+}
+
+// every command the importer sends for peer p carries peer p
+func (m *monCtx) monCalls(p string, cs []call) {
+	for _, c := range cs {
+		if c.peer != p {
+			m.violate("import:command-for-wrong-peer", fmt.Sprintf("import for peer %q sent %s with PeerName=%q", p, c.enc, c.peer))
+		}
+	}
+}
+
+func canonInst(i inst) string {
+	var ks []string
+	for _, k := range i.chks {
+		ks = append(ks, strings.Join([]string{k.cid, k.sid, k.sname, k.status, k.node}, "~"))
+	}
+	sort.Strings(ks)
+	ks = dedup(ks)
+	return fmt.Sprintf("%s|%s|%s|%s|%s|%d|%s", i.node.name, i.node.id, i.node.addr, i.svc.sid, i.svc.name, i.svc.port, strings.Join(ks, ","))
+}
+
+func dedup(s []string) []string {
+	var out []string
+	for i, x := range s {
+		if i == 0 || x != s[i-1] {
+			out = append(out, x)
+		}
+	}
+	return out
+}
+
+// after a successful upsert of a well-formed snapshot the catalog view of (peer, service) IS the snapshot
+func (m *monCtx) monExact(p, name string, is []inst, before []csnView) {
+	after, st := m.w.csn(p, name)
+	if strings.HasPrefix(st, "err:") {
+		m.violate("import:view-unreadable-after-update", "CheckServiceNodes fails after the import: "+st)
+		return
+	}
+	want := map[string]inst{}
+	for _, i := range is {
+		want[i.node.name+"\x00"+i.svc.sid] = i
+	}
+	got := map[string]csnView{}
+	for _, v := range after {
+		got[v.node.name+"\x00"+v.svc.sid] = v
+	}
+	hadNode := map[string]bool{} // node carried an instance of this service before the update
+	for _, v := range before {
+		hadNode[v.node.name] = true
+	}
+	for k, i := range want {
+		v, ok := got[k]
+		if !ok {
+			m.violate("import:received-instance-missing", fmt.Sprintf("peer %s service %s: instance %s/%s of the snapshot is not in the catalog", p, name, i.node.name, i.svc.sid))
+			continue
+		}
+		g := inst{v.node, v.svc, v.chks}
+		if canonInst(g) == canonInst(i) {
+			continue
+		}
+		if v.node != i.node {
+			m.violate("import:node-differs-from-snapshot", fmt.Sprintf("peer %s service %s: node %+v, snapshot has %+v", p, name, v.node, i.node))
+		}
+		if v.svc != i.svc {
+			m.violate("import:instance-differs-from-snapshot", fmt.Sprintf("peer %s service %s: instance %+v, snapshot has %+v", p, name, v.svc, i.svc))
+		}
+		wantK := map[string]chkDef{}
+		for _, c := range i.chks {
+			wantK[c.cid] = c
+		}
+		gotK := map[string]chkDef{}
+		for _, c := range v.chks {
+			gotK[c.cid] = c
+		}
+		for cid, c := range wantK {
+			if g, ok := gotK[cid]; !ok {
+				m.violate("import:received-check-missing", fmt.Sprintf("peer %s service %s: check %s on %s of the snapshot is not in the catalog", p, name, cid, i.node.name))
+			} else if g != c {
+				m.violate("import:check-differs-from-snapshot", fmt.Sprintf("peer %s service %s: check %+v, snapshot has %+v", p, name, g, c))
+			}
+		}
+		for cid, c := range gotK {
+			if _, ok := wantK[cid]; ok {
+				continue
+			}
+			switch {
+			case c.sid == "" && !hadNode[i.node.name]:
+				m.violate("import:stale-node-check:node-new-to-service", fmt.Sprintf("peer %s service %s: node check %s on %s is absent from the snapshot but stays (the node carried no instance of the service before)", p, name, cid, i.node.name))
+			case c.sid == "":
+				m.violate("import:stale-node-check:instance-id-replaced", fmt.Sprintf("peer %s service %s: node check %s on %s is absent from the snapshot but stays (the stored instance on the node had another id)", p, name, cid, i.node.name))
+			default:
+				m.violate("import:stale-service-check", fmt.Sprintf("peer %s service %s: service check %s on %s is absent from the snapshot but stays", p, name, cid, i.node.name))
+			}
+		}
+	}
+	for k, v := range got {
+		if _, ok := want[k]; !ok {
+			m.violate("import:absent-instance-not-removed", fmt.Sprintf("peer %s service %s: instance %s/%s is not in the snapshot but stays in the catalog", p, name, v.node.name, v.svc.sid))
+		}
+	}
+}
+
+type pRow struct {
+	node, sid, sname string
+}
+
+func (m *monCtx) peerState(p string) (nodes map[string]bool, svcs map[string]pRow, svcsOn map[string]int) {
+	ns, ss, _ := m.w.f.State().VerifC17Catalog()
+	nodes, svcs, svcsOn = map[string]bool{}, map[string]pRow{}, map[string]int{}
+	for _, n := range ns {
+		if n.PeerName == p {
+			nodes[lc(n.Node)] = true
+		}
+	}
+	for _, s := range ss {
+		if s.PeerName == p {
+			svcs[lc(s.Node)+"\x00"+lc(s.ServiceID)] = pRow{s.Node, s.ServiceID, s.ServiceName}
+			svcsOn[lc(s.Node)]++
+		}
+	}
+	return
+}
+
+// a node of the peer disappears only when no instance is left on it, and no node is left without instances
+func (m *monCtx) monNodes(p string, nodesBefore map[string]bool, svcsOnBefore map[string]int) {
+	nodes, _, on := m.peerState(p)
+	for n := range nodes {
+		if on[n] == 0 && (svcsOnBefore[n] > 0 || !nodesBefore[n]) {
+			m.violate("import:node-left-without-instances", fmt.Sprintf("peer %s: node %s is in the catalog but carries no service instance any more", p, n))
+		}
+	}
+	for n, k := range on {
+		if k > 0 && !nodes[n] {
+			m.violate("import:instance-without-node", fmt.Sprintf("peer %s: %d instance(s) on node %s which is not in the catalog", p, k, n))
+		}
+	}
+}
+
+// after an exported-service list update nothing unlisted remains and everything listed is untouched
+func (m *monCtx) monList(p string, names []string, svcsBefore map[string]pRow) {
+	keep := map[string]bool{}
+	for _, n := range names {
+		keep[n] = true
+		keep[n+"-sidecar-proxy"] = true
+	}
+	_, after, _ := m.peerState(p)
+	for _, s := range after {
+		if !keep[s.sname] {
+			m.violate("import:unexported-service-remains", fmt.Sprintf("peer %s: service %s (instance %s/%s) is not in the exported list %v but remains", p, s.sname, s.node, s.sid, names))
+		}
+	}
+	for k, s := range svcsBefore {
+		if keep[s.sname] {
+			if a, ok := after[k]; !ok || a != s {
+				m.violate("import:listed-service-damaged", fmt.Sprintf("peer %s: instance %s/%s of listed service %s was removed or changed by the list update %v", p, s.node, s.sid, s.sname, names))
+			}
+		}
+	}
+}
+
+// ---------------------------------------------------------------- one import case
+
+type caseCfg struct {
+	caseMode, ids, flatten, arbitrary bool
+}
+
+func genPrior(r *hx.RNG, run *hx.Run, w *world, u universe, importPeer string, ids bool) []string {
+	var ops []string
+	peers := []string{"", "", "p2", "p10", importPeer}
+	n := 2 + r.Intn(7)
+	for k := 0; k < n; k++ {
+		peer := hx.Pick(r, peers)
+		nd := nodeDef{hx.Pick(r, u.nodes), "", hx.Pick(r, addrs)}
+		if ids && r.Chance(50) {
+			nd.id = hx.Pick(r, uuids)
+		}
+		var s *svcDef
+		var ks []chkDef
+		if r.Chance(80) {
+			s = &svcDef{hx.Pick(r, u.sids), hx.Pick(r, u.svcs), hx.Pick(r, ports)}
+			if r.Chance(50) {
+				ks = append(ks, chkDef{nd.name, hx.Pick(r, u.scids), s.sid, s.name, hx.Pick(r, statuses)})
+			}
+		}
+		if r.Chance(40) {
+			ks = append(ks, chkDef{nd.name, hx.Pick(r, u.ncids), "", "", hx.Pick(r, statuses)})
+		}
+		err := w.directRegister(peer, nd, s, ks)
+		sv := "-"
+		if s != nil {
+			sv = fmt.Sprintf("%s;%s;%d", hx.EncS(s.sid), hx.EncS(s.name), s.port)
+		}
+		op := fmt.Sprintf("reg %s %s %s %s %s %s", hx.EncS(peer), hx.EncS(nd.name), hx.EncS(nd.id), hx.EncS(nd.addr), sv, encChkDefs(ks))
+		run.Line(op, errEnum(err))
+		ops = append(ops, op)
+		if peer == "" {
+			run.Tag("prior:local-row")
+		} else if peer == importPeer {
+			run.Tag("prior:imported-row-direct")
+		} else {
+			run.Tag("prior:other-peer-row")
+		}
+		if err != nil {
+			run.Tag("prior:" + errEnum(err))
+		}
+	}
+	return ops
+}
+
+func genArbitrary(r *hx.RNG, u universe, name string, ids bool) []inst {
+	var out []inst
+	nodes := map[string]nodeDef{}
+	nchk := map[string][]chkDef{}
+	n := r.Intn(4)
+	for k := 0; k < n; k++ {
+		nn := hx.Pick(r, u.nodes)
+		nd, ok := nodes[lc(nn)]
+		if !ok {
+			nd = nodeDef{nn, "", hx.Pick(r, addrs)}
+			if ids && r.Chance(60) {
+				nd.id = hx.Pick(r, uuids)
+			}
+			nodes[lc(nn)] = nd
+			for _, c := range u.ncids {
+				if r.Chance(25) {
+					nchk[lc(nn)] = append(nchk[lc(nn)], chkDef{nd.name, c, "", "", hx.Pick(r, statuses)})
+				}
+			}
+		}
+		it := inst{node: nd, svc: svcDef{hx.Pick(r, u.sids), name, hx.Pick(r, ports)}}
+		it.chks = append(it.chks, nchk[lc(nn)]...)
+		for _, c := range u.scids {
+			if r.Chance(25) {
+				it.chks = append(it.chks, chkDef{nd.name, c, it.svc.sid, name, hx.Pick(r, statuses)})
+			}
+		}
+		out = append(out, it)
+	}
+	return out
+}
+
+func shapeTags(run *hx.Run, w *world, p, name string, is []inst) {
+	if len(is) == 0 {
+		run.Tag("snap:empty(delete)")
+		return
+	}
+	ns, ss, _ := w.f.State().VerifC17Catalog()
+	nodes := map[string]int{}
+	for _, i := range is {
+		nodes[i.node.name]++
+		for _, k := range i.chks {
+			if k.sid == "" {
+				run.Tag("snap:has-node-check")
+			} else {
+				run.Tag("snap:has-service-check")
+			}
+		}
+		if i.node.id != "" {
+			run.Tag("snap:node-with-id")
+		}
+		for _, n := range ns {
+			if lc(n.Node) == lc(i.node.name) {
+				switch {
+				case n.PeerName == "":
+					run.Tag("collide:node-name-with-local")
+				case n.PeerName != p:
+					run.Tag("collide:node-name-with-other-peer")
+				case n.Node != i.node.name:
+					run.Tag("collide:node-name-case-variant-stored")
+				}
+			}
+			if n.PeerName == p && i.node.id != "" && string(n.ID) == i.node.id && lc(n.Node) != lc(i.node.name) {
+				run.Tag("snap:node-renamed-by-id")
+			}
+		}
+		for _, s := range ss {
+			if lc(s.Node) == lc(i.node.name) && lc(s.ServiceID) == lc(i.svc.sid) {
+				switch {
+				case s.PeerName == "":
+					run.Tag("collide:instance-key-with-local")
+				case s.PeerName != p:
+					run.Tag("collide:instance-key-with-other-peer")
+				case lc(s.ServiceName) != lc(name):
+					run.Tag("collide:instance-key-with-other-service-same-peer")
+				case s.ServiceID != i.svc.sid:
+					run.Tag("collide:instance-id-case-variant-stored")
+				}
+			}
+			if s.PeerName == p && lc(s.Node) == lc(i.node.name) && lc(s.ServiceName) != lc(name) {
+				run.Tag("snap:node-shared-with-other-service")
+			}
+		}
+	}
+	for _, c := range nodes {
+		if c > 1 {
+			run.Tag("snap:several-instances-on-one-node")
+		}
+	}
+	if len(nodes) > 1 {
+		run.Tag("snap:several-nodes")
+	}
+}
+
+func runImportCase(run *hx.Run, r *hx.RNG, cfg caseCfg) {
+	w := newWorld()
+	u := mkUniverse(cfg.caseMode)
+	p := hx.Pick(r, []string{"p1", "p1", "p1", "p2"})
+	var hist []string
+	emit := func(op, out string) {
+		run.Line(op, out)
+		hist = append(hist, op)
+	}
+	emit("reset", "ok")
+	hist = append(hist, genPrior(r, run, w, u, p, cfg.ids)...)
+	x := &exporter{u: u, ids: cfg.ids}
+	for k := 2 + r.Intn(4); k > 0; k-- {
+		x.addInst(r, hx.Pick(r, u.svcs))
+	}
+	mon := &monCtx{run: run, w: w}
+	nontrivial := false
+	nmsg := 3 + r.Intn(6)
+	for k := 0; k < nmsg; k++ {
+		for j := r.Intn(4); j > 0; j-- {
+			if t := x.mutate(r); t != "" {
+				run.Tag("exporter:" + t)
+			}
+		}
+		othersBefore := w.others(p)
+		nodesB, svcsB, onB := mon.peerState(p)
+		if r.Chance(18) {
+			// exported-service list
+			names := x.names()
+			if r.Chance(50) && len(names) > 0 {
+				drop := r.Intn(len(names))
+				names = append(names[:drop:drop], names[drop+1:]...)
+				run.Tag("list:service-unexported")
+			}
+			if r.Chance(10) {
+				names = nil
+				run.Tag("list:empty")
+			}
+			res := w.sendList(p, names)
+			op := fmt.Sprintf("list %s %s", hx.EncS(p), hx.EncSList(names))
+			emit(op, resLine(res))
+			emit("dump", w.dump())
+			mon.replay = hist
+			mon.monCalls(p, res.calls)
+			if res.status == "ok" {
+				mon.monList(p, names, svcsB)
+				mon.monNodes(p, nodesB, onB)
+			}
+			if after := w.others(p); after != othersBefore {
+				mon.violate("import:foreign-rows-modified:list", fmt.Sprintf("a list update for peer %s changed rows of another peer or local rows:\n-- before\n%s\n-- after\n%s", p, othersBefore, after))
+			}
+			run.Tag("msg:list")
+			run.Tag("result:" + res.status)
+			if len(res.calls) > 0 {
+				nontrivial = true
+				run.Tag("list:pruned-something")
+			}
+			continue
+		}
+		name := hx.Pick(r, u.svcs)
+		var is []inst
+		kind := "world"
+		switch {
+		case cfg.arbitrary && r.Chance(50):
+			is = genArbitrary(r, u, name, cfg.ids)
+			kind = "arbitrary"
+		case r.Chance(8):
+			is = nil
+			kind = "delete"
+		default:
+			is = x.snapshot(name, cfg.flatten)
+		}
+		hx.Shuffle(r, is)
+		wf := wellFormed(name, is)
+		shapeTags(run, w, p, name, is)
+		before, _ := w.csn(p, name)
+		res := w.sendService(p, name, is)
+		ordered := orderByCalls(is, res.calls)
+		op := fmt.Sprintf("upd %s %s %s", hx.EncS(p), hx.EncS(name), encInsts(ordered))
+		emit(op, resLine(res))
+		emit("dump", w.dump())
+		_, cs := w.csn(p, name)
+		emit(fmt.Sprintf("csn %s %s", hx.EncS(p), hx.EncS(name)), cs)
+		mon.replay = hist
+		mon.monCalls(p, res.calls)
+		if after := w.others(p); after != othersBefore {
+			mon.violate("import:foreign-rows-modified:update", fmt.Sprintf("an update of %s for peer %s changed rows of another peer or local rows:\n-- before\n%s\n-- after\n%s", name, p, othersBefore, after))
+		}
+		if res.status == "ok" && wf {
+			mon.monExact(p, name, is, before)
+			mon.monNodes(p, nodesB, onB)
+		}
+		run.Tag("msg:upd-" + kind)
+		run.Tag("result:" + res.status)
+		if !wf {
+			run.Tag("snap:not-well-formed")
+		}
+		for _, c := range res.calls {
+			run.Tag("cmd:" + strings.SplitN(c.enc, ";", 2)[0])
+			nontrivial = true
+		}
+		if len(res.calls) == 0 && len(is) > 0 {
+			run.Tag("upd:nothing-to-do")
+		}
+	}
+	mode := fmt.Sprintf("mode:case=%v,ids=%v,flatten=%v,arbitrary=%v", cfg.caseMode, cfg.ids, cfg.flatten, cfg.arbitrary)
+	run.Tag(mode)
+	run.Case(strings.Join(hist, "\n"), nontrivial)
+	run.Sample(map[string]any{"ops": hist[:min(len(hist), 12)]})
+}
+
+// ---------------------------------------------------------------- malformed / protocol-level stream
+
+func runMalformed(run *hx.Run, r *hx.RNG) {
+	w := newWorld()
+	u := mkUniverse(false)
+	p := "p1"
+	var hist []string
+	emit := func(op, out string) {
+		run.Line(op, out)
+		hist = append(hist, op)
+	}
+	emit("reset", "ok")
+	hist = append(hist, genPrior(r, run, w, u, p, false)...)
+	name := hx.Pick(r, u.svcs)
+	// a valid import first, so that there is something to damage
+	x := &exporter{u: u}
+	for k := 3; k > 0; k-- {
+		x.addInst(r, name)
+	}
+	is := x.snapshot(name, false)
+	res := w.sendService(p, name, is)
+	emit(fmt.Sprintf("upd %s %s %s", hx.EncS(p), hx.EncS(name), encInsts(orderByCalls(is, res.calls))), resLine(res))
+	othersBefore := w.others(p)
+	dumpBefore := w.dump()
+	nd := nodeDef{hx.Pick(r, u.nodes), "", hx.Pick(r, addrs)}
+	one := inst{node: nd, svc: svcDef{hx.Pick(r, u.sids), name, 80}}
+	kind := r.Intn(8)
+	modelled := true
+	switch kind {
+	case 0: // check that names another node
+		one.chks = []chkDef{{"elsewhere", "c1", one.svc.sid, name, "passing"}}
+		run.Tag("malformed:check-on-other-node")
+	case 1: // check for a service id that is not registered
+		one.chks = []chkDef{{nd.name, "c1", "ghost", name, "passing"}}
+		run.Tag("malformed:check-for-unknown-service")
+	case 2:
+		one.node.name = ""
+		run.Tag("malformed:empty-node-name")
+	case 3:
+		one.svc.sid = ""
+		run.Tag("malformed:empty-service-id")
+	case 4:
+		one.chks = []chkDef{{nd.name, "", one.svc.sid, name, "passing"}}
+		run.Tag("malformed:empty-check-id")
+	case 5:
+		one.chks = []chkDef{{nd.name, "c1", one.svc.sid, name, ""}}
+		run.Tag("malformed:empty-check-status")
+	case 6: // same instance twice with different content, same check twice
+		one.chks = []chkDef{{nd.name, "c1", one.svc.sid, name, "passing"}, {nd.name, "c1", one.svc.sid, name, "critical"}}
+		run.Tag("malformed:duplicate-check")
+	default:
+		modelled = false
+	}
+	if modelled {
+		res := w.sendService(p, name, []inst{one})
+		emit(fmt.Sprintf("upd %s %s %s", hx.EncS(p), hx.EncS(name), encInsts([]inst{one})), resLine(res))
+		emit("dump", w.dump())
+		run.Tag("result:" + res.status)
+		mon := &monCtx{run: run, w: w, replay: hist}
+		mon.monCalls(p, res.calls)
+		if after := w.others(p); after != othersBefore {
+			mon.violate("import:foreign-rows-modified:malformed", "a malformed update changed rows of another peer or local rows")
+		}
+	} else {
+		// protocol-level rejections: nothing may change at all (not part of the model: the state line proves it)
+		a, _ := anypb.New(mkExportedService([]inst{one}))
+		var resp *pbpeerstream.ReplicationMessage_Response
+		switch r.Intn(5) {
+		case 0:
+			resp = &pbpeerstream.ReplicationMessage_Response{ResourceURL: pbpeerstream.TypeURLExportedService, ResourceID: name, Nonce: "n", Operation: pbpeerstream.Operation(2), Resource: a}
+		case 1:
+			resp = &pbpeerstream.ReplicationMessage_Response{ResourceURL: pbpeerstream.TypeURLExportedService, ResourceID: name, Nonce: "", Operation: pbpeerstream.Operation_OPERATION_UPSERT, Resource: a}
+		case 2:
+			resp = &pbpeerstream.ReplicationMessage_Response{ResourceURL: "type.googleapis.com/nope", ResourceID: name, Nonce: "n", Operation: pbpeerstream.Operation_OPERATION_UPSERT, Resource: a}
+		case 3:
+			resp = &pbpeerstream.ReplicationMessage_Response{ResourceURL: pbpeerstream.TypeURLExportedService, ResourceID: name, Nonce: "n", Operation: pbpeerstream.Operation_OPERATION_UPSERT}
+		default:
+			resp = &pbpeerstream.ReplicationMessage_Response{ResourceURL: pbpeerstream.TypeURLExportedServiceList, ResourceID: name, Nonce: "n", Operation: pbpeerstream.Operation_OPERATION_UPSERT, Resource: a}
+		}
+		res := w.process(p, proto.Clone(resp).(*pbpeerstream.ReplicationMessage_Response))
+		run.Tag("rejected:" + res.status)
+		emit("dump", w.dump())
+		if w.dump() != dumpBefore || len(res.calls) > 0 || res.status == "ok" {
+			(&monCtx{run: run, w: w, replay: hist}).violate("import:rejected-message-had-effect", "a message rejected at protocol level ("+res.status+") changed the catalog or was accepted")
+		}
+	}
+	run.Case(strings.Join(hist, "\n"), true)
+}
+
+// ---------------------------------------------------------------- export side
+
+func runExportCase(run *hx.Run, r *hx.RNG) {
+	s := state.NewStateStore(nil)
+	idx := uint64(1)
+	next := func() uint64 { idx++; return idx }
+	must := func(err error) {
+		if err != nil {
+			panic(err)
+		}
+	}
+	must(s.CASetConfig(next(), &structs.CAConfiguration{Provider: "consul", ClusterID: connect.TestClusterID}))
+	peers := []string{"p1", "p2", "p10"}
+	peerIDs := map[string]string{}
+	for i, p := range peers {
+		id := fmt.Sprintf("%08d-0000-0000-0000-000000000000", i+1)
+		must(s.PeeringWrite(next(), &pbpeering.PeeringWriteRequest{Peering: &pbpeering.Peering{ID: id, Name: p}}))
+		peerIDs[p] = id
+	}
+	names := []string{"web", "api", "db", "consul", "web-sidecar-proxy", "cache"}
+	// local registrations
+	var typical, connectEnabled, chains []string
+	seenT, seenC := map[string]bool{}, map[string]bool{}
+	for k := r.Intn(6); k > 0; k-- {
+		n := hx.Pick(r, names)
+		node := hx.Pick(r, []string{"n1", "n2"})
+		req := &structs.RegisterRequest{Datacenter: "dc1", Node: node, Address: "10.0.0.1",
+			Service: &structs.NodeService{Kind: structs.ServiceKindTypical, ID: n + "-" + node, Service: n, Port: 80}}
+		if r.Chance(25) && n != "consul" {
+			dest := hx.Pick(r, names[:3])
+			req.Service = &structs.NodeService{Kind: structs.ServiceKindConnectProxy, ID: dest + "-proxy-" + node, Service: dest + "-proxy", Port: 21000,
+				Proxy: structs.ConnectProxyConfig{DestinationServiceName: dest}}
+			must(s.EnsureRegistration(next(), req))
+			if !seenC[dest] {
+				seenC[dest] = true
+				connectEnabled = append(connectEnabled, dest)
+			}
+			run.Tag("export:local-connect-proxy")
+			continue
+		}
+		must(s.EnsureRegistration(next(), req))
+		if !seenT[n] {
+			seenT[n] = true
+			typical = append(typical, n)
+		}
+		run.Tag("export:local-typical-service")
+	}
+	seenR := map[string]bool{}
+	for k := r.Intn(3); k > 0; k-- {
+		n := hx.Pick(r, names)
+		if seenR[n] {
+			continue
+		}
+		seenR[n] = true
+		e := &structs.ServiceResolverConfigEntry{Kind: structs.ServiceResolver, Name: n}
+		must(e.Normalize())
+		must(s.EnsureConfigEntry(next(), e))
+		chains = append(chains, n)
+		run.Tag("export:discovery-chain")
+	}
+	// the exported-services entry
+	type entry struct {
+		name  string
+		peers []string
+	}
+	var cfg []entry
+	ce := &structs.ExportedServicesConfigEntry{Name: "default"}
+	for k := r.Intn(5); k > 0; k-- {
+		e := entry{name: hx.Pick(r, append([]string{"*", "*"}, names...))}
+		var cons []structs.ServiceConsumer
+		for _, p := range append([]string{"p3"}, peers...) {
+			if r.Chance(45) {
+				e.peers = append(e.peers, p)
+				cons = append(cons, structs.ServiceConsumer{Peer: p})
+			}
+		}
+		if r.Chance(15) {
+			cons = append(cons, structs.ServiceConsumer{Partition: "part1"}) // not a peer
+		}
+		cfg = append(cfg, e)
+		ce.Services = append(ce.Services, structs.ExportedService{Name: e.name, Consumers: cons})
+		switch {
+		case e.name == "*":
+			run.Tag("export:entry-wildcard")
+		case e.name == "consul":
+			run.Tag("export:entry-consul")
+		default:
+			run.Tag("export:entry-exact")
+		}
+		if len(e.peers) > 1 {
+			run.Tag("export:entry-several-peers")
+		}
+		if len(e.peers) == 0 {
+			run.Tag("export:entry-no-peer")
+		}
+	}
+	if len(cfg) > 0 || r.Chance(50) {
+		must(ce.Normalize())
+		must(s.EnsureConfigEntry(next(), ce))
+	} else {
+		run.Tag("export:no-config-entry")
+	}
+	var cfgTok []string
+	for _, e := range cfg {
+		ps := "-"
+		if len(e.peers) > 0 {
+			t := make([]string, len(e.peers))
+			for i, p := range e.peers {
+				t[i] = hx.EncS(p)
+			}
+			ps = strings.Join(t, "+")
+		}
+		cfgTok = append(cfgTok, hx.EncS(e.name)+";"+ps)
+	}
+	var hist []string
+	for _, p := range peers {
+		_, list, err := s.ExportedServicesForPeer(nil, peerIDs[p], "dc1")
+		if err != nil {
+			panic(err)
+		}
+		var sv, dc []string
+		for _, n := range list.Services {
+			sv = append(sv, hx.EncS(n.Name))
+		}
+		for n := range list.DiscoChains {
+			dc = append(dc, hx.EncS(n.Name))
+		}
+		sort.Strings(sv)
+		sort.Strings(dc)
+		op := fmt.Sprintf("exp %s %s %s %s %s", hx.EncS(p), hx.EncList(cfgTok), hx.EncSList(typical), hx.EncSList(chains), hx.EncSList(connectEnabled))
+		run.Line(op, fmt.Sprintf("S=%s D=%s", hx.EncList(sv), hx.EncList(dc)))
+		hist = append(hist, op)
+		// monitor: offered only if an entry names the peer as a consumer of it; never "consul";
+		// and every exact entry naming the peer is offered
+		named := func(n string) (exact, wild bool) {
+			for _, e := range cfg {
+				for _, q := range e.peers {
+					if q == p {
+						if e.name == n {
+							exact = true
+						}
+						if e.name == "*" {
+							wild = true
+						}
+					}
+				}
+			}
+			return
+		}
+		offered := map[string]bool{}
+		for _, n := range list.Services {
+			offered[n.Name] = true
+		}
+		all := map[string]bool{}
+		for n := range offered {
+			all[n] = true
+		}
+		for n := range list.DiscoChains {
+			all[n.Name] = true
+		}
+		for n := range all {
+			ex, wi := named(n)
+			if n == "consul" {
+				run.Violate("export:consul-service-offered", fmt.Sprintf("the consul service is offered to peer %s", p), []string{op})
+			}
+			if !ex && !wi {
+				run.Violate("export:offered-without-consumer-entry", fmt.Sprintf("service %s is offered to peer %s but no exported-services entry names the peer as its consumer (cfg %v)", n, p, cfg), []string{op})
+			}
+			if !ex && wi && !seenT[n] && !seenR[n] {
+				run.Violate("export:wildcard-offers-unknown-name", fmt.Sprintf("service %s is offered to peer %s through a wildcard but is neither a local typical service nor a discovery chain", n, p), []string{op})
+			}
+		}
+		for _, e := range cfg {
+			ex, _ := named(e.name)
+			if ex && e.name != "*" && e.name != "consul" && !offered[e.name] {
+				run.Violate("export:entry-not-offered", fmt.Sprintf("an entry names peer %s as consumer of %s but it is not offered", p, e.name), []string{op})
+			}
+		}
+		if _, wi := named("*"); wi {
+			for n := range seenT {
+				if n != "consul" && !offered[n] {
+					run.Violate("export:wildcard-misses-local-service", fmt.Sprintf("peer %s is a wildcard consumer but local service %s is not offered", p, n), []string{op})
+				}
+			}
+			run.Tag("export:peer-is-wildcard-consumer")
+		}
+		if len(list.Services) == 0 {
+			run.Tag("export:nothing-offered")
+		} else {
+			run.Tag("export:something-offered")
+		}
+	}
+	run.Case(strings.Join(hist, "\n"), len(cfg) > 0)
 }
 
 func main() {
 	run := hx.Start()
-	f := newFSM()
-	fmt.Println(f.State().VerifC17Catalog())
+	run.Rule = "one case = a fresh importing cluster (real FSM + state store + peerstream.Server), a random prior catalog (local, other peers, earlier imports) and 3-8 replication messages taken from a mutating simulated exporter (or arbitrary snapshots), each followed by a full catalog dump; or one exported-services configuration queried for 3 peers; distinct by the full op history; non-trivial = at least one catalog command was issued / at least one export entry exists"
+	n := run.Scale(260, 2600)
+	for i := 0; i < n; i++ {
+		r := run.RNG.Fork(uint64(i))
+		switch {
+		case i%10 == 9:
+			runExportCase(run, r)
+		case i%10 == 8:
+			runMalformed(run, r)
+		default:
+			cfg := caseCfg{caseMode: r.Chance(12), ids: r.Chance(40), flatten: r.Chance(30), arbitrary: r.Chance(35)}
+			runImportCase(run, r, cfg)
+		}
+	}
 	run.Finish()
 }
